@@ -46,6 +46,7 @@ fn load_known(dir: &str) -> KnownFile {
 }
 
 fn new_run(prop: &str, tier: Tier) -> Run {
+    props::FRESH_THREAD_THINNING.store(tier.pick(1, 16), std::sync::atomic::Ordering::Relaxed);
     let dir = std::env::var("VERIF_DIR").unwrap_or_else(|_| "/verif".into());
     let known = load_known(&dir);
     Run {
